@@ -29,6 +29,11 @@ fn spec() -> Spec {
     }
 }
 
+fn pools() -> &'static Vec<rayon::ThreadPool> {
+    static POOLS: std::sync::OnceLock<Vec<rayon::ThreadPool>> = std::sync::OnceLock::new();
+    POOLS.get_or_init(|| [1usize, 2, 3, 4, 5].iter().map(|n| rayon::ThreadPoolBuilder::new().num_threads(*n).build().unwrap()).collect())
+}
+
 fn tf_variant(rng: &mut Rng, f: Fr) -> (Fr, &'static str) {
     match rng.usize(6) {
         0 => (Fr { r: f.r, p: [0.0; 3] }, "rotation_only"),
@@ -46,7 +51,14 @@ fn run_case(_kind: &str, idx: u64, rng: &mut Rng, mon: &mut Mon, _tier: Tier) {
     let (bt, bclass) = tf_variant(rng, cell.base_tf);
     cell.base_tf = bt;
     // pose from a posture; obstacles near links of some IK branches of that pose
-    let t = gen_posture(rng);
+    let mut t = gen_posture(rng);
+    // a tenth of the poses lies exactly on the reach limit (arm fully stretched or folded), where the elbow-up
+    // and elbow-down branches of the stack coincide to ~1e-8 rad and come back as neighbouring answers
+    let stretched = rng.bool(0.1);
+    if stretched {
+        t[2] = -cell.robot.rp.psi3() + if rng.bool(0.7) { 0.0 } else { std::f64::consts::PI };
+        mon.count("poses_on_the_reach_limit");
+    }
     let q = cell.robot.rp.from_theta(&t);
     let stack: Arc<dyn Kinematics> = Arc::new(Tool {
         robot: Arc::new(Base { robot: Arc::new(OPWKinematics::new_with_constraints(to_params(&cell.robot.rp), cell.constraints)), base: fr_to_iso(&cell.base_tf) }),
@@ -170,7 +182,11 @@ fn run_case(_kind: &str, idx: u64, rng: &mut Rng, mon: &mut Mon, _tier: Tier) {
         };
         let flags: Vec<bool> = under.iter().map(|s| robot.collides(s)).collect();
         let expected: Vec<[f64; 6]> = under.iter().zip(flags.iter()).filter(|(_, c)| !**c).map(|(s, _)| *s).collect();
-        let got = match call(&robot, e, &pose, &prev, j6) {
+        // the filter may run on any pool: the global one (as many workers as cores) or a small one
+        // (1..5 workers; answer counts of 2..9 then meet every divisibility relation with the pool size)
+        let pool_pick = rng.usize(8);
+        let got = if pool_pick < 5 { mon.count(&format!("pool.{}", pool_pick + 1)); pools()[pool_pick].install(|| call(&robot, e, &pose, &prev, j6)) } else { mon.count("pool.global"); call(&robot, e, &pose, &prev, j6) };
+        let got = match got {
             Ok(s) => s,
             Err(m) => {
                 mon.violation(&format!("panic:{}", e.name()), "entry point of the robot with shape panicked", detail("no-panic", json!({"panic": m})));
